@@ -121,8 +121,11 @@ def run_api(sh, ctx):
 	rng = random.Random(f'C09-{ctx.seed}')        # the same worlds in every shard: digests are compared across settings
 	omp_set_num_threads(sh['threads'])
 	digests = {}
+	# one size from each sorting regime first (deterministically covered), the rest drawn at random
+	sizes = [rng.choice([2, 3, 5, 8, 13, 16]), rng.choice([17, 18, 33, 64]), rng.choice([100, 257, 500])]
+	sizes += [rng.choice([1, 2, 3, 5, 8, 13, 16, 17, 18, 33, 64, 100, 257, 500]) for _ in range(max(sh['nworlds'] - 3, 0))]
 	for wi in range(sh['nworlds']):
-		n = rng.choice([1, 2, 3, 5, 8, 13, 16, 17, 18, 33, 64, 100, 257, 500])
+		n = sizes[wi]
 		w = ties_world(rng, n)
 		order = list(range(n))
 		if rng.random() < 0.5:
